@@ -179,9 +179,15 @@ def check_echo(prog, rep, body, req_arg, site):
     min(client, bound) = client.  The domain assumption bound >= client size is injected where the two meet (cmp::min)."""
     def setup(tr, I, st):
         def hook(I_, s, call, cbody):
-            if call.path.endswith("::checked_sub") and call.ctx.body["path"].startswith("block_handler::") and len(call.args) == 2 \
-                    and all(isinstance(a, IntV) for a in call.args):
-                s.ghost["room"] = call.args[0].aff - call.args[1].aff      # budget - non-payload size - reserve
+            if tr.neg_id is not None and cbody is not None and cbody.get("id") == tr.neg_id:
+                # room for a block = budget - ((message size + reserve) - payload size), from the negotiation's own arguments
+                us = [a for a, t_ in zip(call.args, call.arg_tys) if t_ is not None and t_[0] == "int" and isinstance(a, IntV)]
+                R_ = None
+                for c_ in prog.consts.values():
+                    if c_["path"].endswith("BLOCK_OPTIONS_MAX_LENGTH"):
+                        R_ = int(c_["int"])
+                if len(us) == 3 and R_ is not None:
+                    s.ghost["room"] = us[2].aff - (us[0].aff + R_ - us[1].aff)
             if call.path == "core::cmp::min" and call.ctx.body["path"].startswith("block_handler::") and len(call.args) == 2:
                 cl = [a for a in call.args if isinstance(a, IntV) and a.origin is not None and a.origin[0] == "shl"]
                 room = s.ghost.get("room")
